@@ -229,6 +229,70 @@ func runC08(c *Ctx) {
 		c.Check(fname(fn)+"#total-stake-source", fn.Pos(), uses, ifelse(uses, "reads GetStakeByKind", "the total stake no longer comes from the maintained statistics"))
 	}
 
+	// ------------------------------------------------------------ V8
+	c.Rule("C08.V8", "OWNERSHIP", "the delegator's list of validators is never edited in place (element store, copy(), append onto a prefix): the journal keeps the previous list by reference, so after a revert the account would list a validator twice and miss one that still holds its delegation")
+	c.Min(2)
+	journaledSliceWrites(c, w, "stateObject.delegations")
+
+	// ------------------------------------------------------------ V9
+	c.Rule("C08.V9", "SHAPE", "a validator's total Stake moves only by the delta by which one of its components (its own stake or one delegation's stake) moved: outside constructors, copies and decoders the field Validator.Stake is changed by Add/Sub, never set from a recomputation over the total tokens — floor(total tokens) is not the sum of the components' floors")
+	c.Min(5)
+	{
+		stakeF := w.Field(statePkg, "Validator", "Stake")
+		tabledSet := map[string]string{
+			"core/state.NewValidator":            "constructor",
+			"(core/state.Validator).PartialCopy": "copy of the source's total",
+			"(core/state.Validator).DeepCopy":    "copy of the source's total",
+			"(core/state.Validator).DecodeRLP":   "decoder",
+			"(core/state.Validator).EncodeRLP":   "nil-guard default before encoding",
+		}
+		n := 0
+		for _, pk := range []string{"staking", "core/state", "core"} {
+			for _, fn := range w.FuncsIn(pk) {
+				if strings.HasSuffix(w.fileOf(fn.Pos()), "_test.go") {
+					continue
+				}
+				k := 0
+				for _, ci := range callInstrs(fn) {
+					o := calleeObj(ci)
+					if o == nil || recvName(o) != "Int" || o.Pkg() == nil || o.Pkg().Path() != "math/big" {
+						continue
+					}
+					if f, _ := loadedField(stripConv(callRecv(ci))); f != stakeF {
+						continue
+					}
+					switch o.Name() {
+					case "Add", "Sub":
+						n++
+						c.sites++
+						c.sawFunc(fname(fn))
+						c.Pass(fmt.Sprintf("%s#Stake.%s@%d", fname(fn), o.Name(), k), ci.Pos(), "moved by a delta")
+						k++
+					case "Set", "SetUint64", "SetInt64", "SetBytes", "SetString", "Mul", "Quo", "Div", "Lsh", "Rsh", "Neg":
+						n++
+						c.sites++
+						c.sawFunc(fname(fn))
+						r, ok := tabledSet[outerName(fname(fn))]
+						c.Check(fmt.Sprintf("%s#Stake.%s@%d", fname(fn), o.Name(), k), ci.Pos(), ok, ifelse(ok, "tabled: "+r, "the validator's total stake is overwritten instead of being moved by the delta of the component that changed: recomputed from the total tokens it exceeds own stake + delegated stakes as soon as the fractional parts of the components add up to a whole unit, and every later delta-based update carries the surplus"))
+						k++
+					}
+				}
+				// plain assignment of the field
+				for _, fw := range fieldWrites(fn) {
+					if fw.Field == stakeF && fw.Kind == "store" && !isLocalAlloc(fw.Base) {
+						n++
+						c.sites++
+						r, ok := tabledSet[outerName(fname(fn))]
+						c.Check(fmt.Sprintf("%s#Stake-assigned", fname(fn)), fw.Instr.Pos(), ok, ifelse(ok, "tabled: "+r, "the validator's total stake is assigned a new value instead of being moved by a component's delta"))
+					}
+				}
+			}
+		}
+		if n < 5 {
+			c.Undecided("core/state.Validator.Stake#updates", 0, fmt.Sprintf("only %d updates of the total stake found", n))
+		}
+	}
+
 	// ------------------------------------------------------------ V6
 	c.Rule("C08.V6", "STALE-AFTER-REPLACE", "UpdateValidator(new, old) takes old's amounts out of the statistics and puts new's in, so old must be the record currently in the state: on no path is a validator value used as the pre-image of a replacement after another replacement (UpdateValidator, or a callee that replaces its parameter) already superseded it")
 	c.Min(10)
